@@ -6,14 +6,26 @@ lazy collection / lazy ``__getitem__`` sequence that logs every pull (index, ord
 a logical pull budget.  Oracle: from the window the rendering *showed* and the parameters,
 ``pulls <= window end + size + orphan``; the log must read 0,1,2,...; the k-th shown element
 must be the k-th produced one; unbatched renders produce exactly 0..n-1.
+
+The lazy value reaches the tag by every documented route (keyword, client attribute - plain, computed by
+``__getattr__``, path of clients, zero-argument method -, mapping, ``dtml-with`` object / mapping / only,
+``dtml-let``, item of an enclosing loop, sub-template rendered in the caller's namespace, values given when
+the template was created), and pages put several tags and passive lookups of the same name into one render:
+the oracle is the same statement applied per tag (see ``page``).
 """
 import itertools
 
 from checks import c11
+from vlib.c12_util import ATTRIBUTE_ROUTES
+from vlib.c12_util import CREATED
 from vlib.c12_util import KINDS
+from vlib.c12_util import MORE_KINDS
 from vlib.c12_util import OptSites
 from vlib.c12_util import PullBudgetExceeded
 from vlib.c12_util import PullLog
+from vlib.c12_util import ROUTE_WRAP
+from vlib.c12_util import ROUTES
+from vlib.c12_util import deliver
 from vlib.c12_util import make
 
 ID = 'C12'
@@ -26,8 +38,19 @@ RULE = ('exhaustive grid (source length incl. unbounded, start, end, size, orpha
         'tuples (length <= 200 or unbounded); unbatched renders of every kind. A batched case is '
         'non-trivial when the source could produce more elements than the bound (unbounded, or '
         'length > window end + size + orphan) - only then can the bound be broken; an unbatched '
-        'case when the source is non-empty. distinct = distinct '
-        '(template,kind,length,start,end,size,orphan,overlap,strings) tuples')
+        'case when the source is non-empty. Added: every 4th grid point once more with a rotating delivery route '
+        '(client attribute, __getattr__ client, client + keyword parameters, tuple of clients, method, mapping, '
+        'dtml-with object / only / mapping / expr, dtml-let name / expr, item of an enclosing dtml-in (object / '
+        'mapping), sub-template in the caller\'s namespace) x kind (the five plus a lazy sequence whose == / in '
+        'produce everything) x body variant; pages = one template whose 2..6 segments work on the same name in one '
+        'render (batch, batch at a second start, full body, expr form, previous / next attribute forms, batch of a '
+        'dtml-let alias, unbatched walk, and lookups that walk nothing: another name next to it, has_key, raw '
+        'getitem): a fixed family (8 page shapes x every route incl. values given at template creation and the page '
+        'rendered twice as a sub-template x 4 multi-walk kinds x 16 parameter points) and seeded pages (iterator / '
+        'generator pages have one walking tag); seeded routed tuples and unbatched renders. A page is non-trivial '
+        'when the source is longer than the largest (single-pass kinds) / some (re-iterables) tag bound. '
+        'distinct = distinct (template or page segments,route,kind,length,start,start2,end,size,orphan,overlap,'
+        'strings) tuples')
 ASSUMPTIONS = ['"size" in the bound is the effective batch size: the size parameter when >= 1, the '
                'requested window length end+1-start when both bounds are given, else the default 7 '
                '(same reading as C11)',
@@ -38,7 +61,17 @@ ASSUMPTIONS = ['"size" in the bound is the effective batch size: the size parame
                'with the previous / next attributes nothing is displayed element-wise; the window is '
                'the one the engine reports in sequence-step-start-index / -end-index',
                'previous-batches is requested only with overlap < size (with overlap >= size '
-               'previous_batches never terminates - outside this property, reported separately)']
+               'previous_batches never terminates - outside this property, reported separately)',
+               'how the sequence is found (keyword, attribute of a client / dtml-with object / loop item, mapping, '
+               'dtml-let, sub-template namespace, creation-time values) is not an excepted request: the bound is '
+               'demanded on every route; a method route is used with the name form only (an expression does not '
+               'call what it names)',
+               'pages: the statement is applied per tag. A lazy __getitem__ sequence remembers what it produced, so '
+               'over the whole page the log must read 0,1,2,... and stop at the largest tag bound (an unbatched tag '
+               'makes that the length); a re-iterable legitimately starts one pass per tag (never more passes than '
+               'tags), pass i within the bound of tag i; iterator / generator pages have exactly one walking tag. '
+               'Lookups that walk nothing (has_key, raw getitem, dtml-let alias, another name) may pull nothing',
+               'pages use overlap 0 / 1 only (the known previous-batch probe mechanism needs overlap > 2*size+orphan)']
 SHARD_TIMEOUT = {'quick': 600, 'thorough': 3000}
 
 INF = float('inf')
@@ -72,6 +105,40 @@ SOURCES = {
     'unb_expr': '<dtml-in "seq">' + B_MIN + ELSE,
 }
 DISPLAYED = ('full', 'min', 'pb', 'expr', 'rev0', 'literal')
+
+# pages: several tags of ONE template work on the same lazy value in one render (the batch plus its
+# previous / next navigation, two batches, a batch under another name, plus lookups of the name that walk
+# nothing); the outputs of the segments are joined by '#'
+ATTRS2 = ' start=st2 end=en size=sz orphan=orp overlap=ovl>'
+SEGMENTS = {
+    'show': SOURCES['min'],
+    'show2': '<dtml-in seq' + ATTRS2 + B_MIN + ELSE,
+    'full': SOURCES['full'],
+    'xshow': SOURCES['expr'],
+    'prev': SOURCES['prev'],
+    'next': SOURCES['next'],
+    'next2': '<dtml-in seq next' + ATTRS2 + 'B' + B_MODE + '<dtml-else>E' + B_MODE + '</dtml-in>',
+    'alias': '<dtml-let al=seq><dtml-in al' + ATTRS + B_MIN + ELSE + '</dtml-let>',
+    'unb': SOURCES['unb'],
+    # lookups that walk nothing: another name living next to the sequence, a has_key test of the name,
+    # the raw value of the name
+    'var': 'v<dtml-var title>',
+    'has': '<dtml-if "_.has_key(\'seq\')">y<dtml-else>n</dtml-if>',
+    'raw': '<dtml-if "_.getitem(\'seq\') is not None">y<dtml-else>n</dtml-if>',
+}
+PASSIVE = ('var', 'has', 'raw')
+PASSIVE_OUT = {'var': 'v', 'has': 'y', 'raw': 'y'}
+WALKS = tuple(k for k in SEGMENTS if k not in PASSIVE)
+MODES = ('prev', 'next', 'next2')
+# kinds that can be walked by more than one tag: the value itself remembers what it produced (lazy) or
+# every tag legitimately starts its own pass (re-iterables)
+SINGLE_PASS = ('iter', 'gen', 'lazy', 'lazyeq')
+# routes for pages only: the whole page is rendered twice as a sub-template of one calling template
+PAGE_ONLY_ROUTES = ('sub2',)
+
+
+def page_source(segs):
+    return '#'.join(SEGMENTS[k] for k in segs)
 
 GRID = {}
 for _tier in ('quick', 'thorough'):
@@ -114,6 +181,10 @@ def classify(case, s, e, bound, log):
     n = case['n']
     if len(log.pulls) != (want if n is None else min(want, n)):
         return None
+    if not log.opt_calls:
+        # no attribution available (the wrapped internal was renamed): the output-level part above - pulls stop
+        # exactly at the number the previous batch is said to end at - is what classifies
+        return MECH_PREV
     for idx, site in zip(log.pulls, log.sites):
         if idx < bound:
             continue
@@ -134,6 +205,7 @@ class Env:
         self.sites.install()
         self.templates = {}
         self.literals = {}
+        self.outers = (HTML('<dtml-var inner>'), HTML('<dtml-var inner>#<dtml-var inner>'))
         # a real generator cannot log requests made after it is exhausted; once an observable
         # container has shown a render that does not stop asking, generators are no longer fed
         # (the verdict is already a violation; this only keeps the shard from hanging)
@@ -146,34 +218,55 @@ class Env:
         return False
 
     def template(self, case):
+        """(compiled template or None for the created routes, its source)."""
         name = case['tmpl']
+        route = case.get('route', 'kw')
+        wrap = ROUTE_WRAP.get(route, ('', ''))
         if name == 'literal':
             src = case['src']
+        elif name == 'page':
+            src = page_source(case['segs'])
+        else:
+            src = SOURCES[name]
+        src = wrap[0] + src + wrap[1]
+        if route in CREATED:
+            return None, src
+        if name in ('literal', 'page'):
             t = self.literals.get(src)
             if t is None:
                 if len(self.literals) > 2000:
                     self.literals.clear()
                 t = self.literals[src] = self.HTML(src)
-            return t
-        t = self.templates.get(name)
+            return t, src
+        t = self.templates.get((name, wrap))
         if t is None:
-            t = self.templates[name] = self.HTML(SOURCES[name])
+            t = self.templates[(name, wrap)] = self.HTML(src)
             t.cook()
-        return t
+        return t, src
 
 
 def render(env, case, log):
     """Returns (output, exception)."""
-    t = env.template(case)
+    t, src = env.template(case)
     seq = make(case['kind'], log)
+    route = case.get('route', 'kw')
+    env.ctx.table('route/kind', '%s/%s' % (route, case['kind']))
+    vals = {'seq': seq}
+    if route != 'kw' or case['tmpl'] == 'page':
+        vals['title'] = ''
+    if case['tmpl'] in ('unb', 'unb_expr', 'literal'):
+        params = {}
+    else:
+        p = [case['start'], case['end'], case['size'], case['orphan'], case['overlap']]
+        if case['tmpl'] == 'page':
+            p.append(case['start2'])
+        if case.get('strs'):
+            p = [str(v) for v in p]
+        params = dict(zip(('st', 'en', 'sz', 'orp', 'ovl', 'st2'), p))
+        params['rv0'] = 0
     env.sites.current = log
     try:
-        if case['tmpl'] in ('unb', 'unb_expr', 'literal'):
-            return t(seq=seq), None
-        vals = [case['start'], case['end'], case['size'], case['orphan'], case['overlap']]
-        if case.get('strs'):
-            vals = [str(v) for v in vals]
-        return t(seq=seq, st=vals[0], en=vals[1], sz=vals[2], orp=vals[3], ovl=vals[4], rv0=0), None
+        return deliver(route, env.HTML, t, src, env.outers, vals, params), None
     except PullBudgetExceeded as e:
         return None, e
     except Exception as e:
@@ -194,9 +287,14 @@ def parse_records(out):
 
 
 def case_key(case):
-    return '%s_%s_%s_%s_%s_%s_%s_%s' % (case['tmpl'], case['kind'], case['n'], case.get('start'),
-                                      case.get('end'), case.get('size'), case.get('orphan'),
-                                      case.get('overlap'))
+    key = '%s_%s_%s_%s_%s_%s_%s_%s' % (case['tmpl'], case['kind'], case['n'], case.get('start'),
+                                     case.get('end'), case.get('size'), case.get('orphan'),
+                                     case.get('overlap'))
+    if case.get('route', 'kw') != 'kw':
+        key += '_' + case['route']
+    if case['tmpl'] == 'page':
+        key += '_%s_%s' % (case['start2'], '+'.join(case['segs']))
+    return key
 
 
 def log_detail(log, out):
@@ -224,6 +322,9 @@ def batched(ctx, env, case, sample=False):
     out, exc = render(env, case, log)
     npull = len(log.pulls)
     desc = (tmpl, kind, n, st, en, sz, orp, ovl, bool(case.get('strs')), case.get('src'))
+    if case.get('route', 'kw') != 'kw':
+        desc += (case['route'],)
+        ctx.count('routes:batched renders with the sequence delivered other than by keyword')
     ctx.table('kind/template', '%s/%s' % (kind, tmpl))
     key = case_key(case)
 
@@ -351,6 +452,8 @@ def nested(ctx, env, case):
     out, exc = render(env, case, log)
     npull = len(log.pulls)
     desc = (tmpl, kind, n, st, en, sz, orp, ovl)
+    if case.get('route', 'kw') != 'kw':
+        desc += (case['route'],)
     key = case_key(case)
     ctx.table('kind/template', '%s/%s' % (kind, tmpl))
     ctx.count('nested:renders')
@@ -403,6 +506,166 @@ def nested(ctx, env, case):
         ctx.violation('; '.join(problems[:3]), case, key='nested_' + key, detail=log_detail(log, out))
 
 
+# ---------------------------------------------------------------- several tags on one lazy value
+def page(ctx, env, case, sample=False):
+    """One render of a page: every walking segment is a batched (or, 'unb', unbatched) dtml-in over the
+    same value.  Per segment the statement gives: in order, each element at most once, at most shown
+    window end + size + orphan.  A lazy __getitem__ sequence remembers what it produced, so for the whole
+    page the log reads 0,1,2,... up to the largest of the segment bounds; a re-iterable starts one pass
+    per tag, each within the bound of its tag."""
+    segs, kind, n, route = case['segs'], case['kind'], case['n'], case.get('route', 'kw')
+    st, st2, en, sz, orp, ovl = (case['start'], case['start2'], case['end'], case['size'], case['orphan'],
+                                 case['overlap'])
+    if env.skip(kind):
+        return
+    if route == 'sub2':
+        segs = list(segs) * 2
+    walks = [k for k in segs if k not in PASSIVE]
+    starts = [st2 if k.endswith('2') else st for k in walks]
+    effs = [eff_size(a, en, sz) for a in starts]
+    if n is None:
+        ubs = [c11.model(INF, a, en, sz, orp)[1] + f + orp for a, f in zip(starts, effs)]
+        budget = (max(ubs) if kind in SINGLE_PASS else sum(ubs)) + 64
+    else:
+        budget = 3 * n * len(walks) + 64
+    log = PullLog(n, budget)
+    out, exc = render(env, case, log)
+    npull = len(log.pulls)
+    desc = ('page', tuple(case['segs']), route, kind, n, st, st2, en, sz, orp, ovl, bool(case.get('strs')))
+    key = case_key(case)
+    ctx.count('pages:renders')
+    ctx.table('pages: walking segments / kind', '%d / %s' % (len(walks), kind))
+    for k in segs:
+        ctx.table('pages: segment', k)
+    if log.over or isinstance(exc, PullBudgetExceeded):
+        ctx.case(desc, True)
+        env.nonterminating = True
+        ctx.violation('pull budget %d exhausted by a page whose tags %s work on the same lazy value (delivered by: %s)'
+                      % (budget, '+'.join(segs), route), case, key='budget_' + key, detail=log_detail(log, out))
+        return
+    if exc is not None:
+        ctx.case(desc, True)
+        ctx.violation('page %s over a lazy value (delivered by: %s) raised %s: %s'
+                      % ('+'.join(segs), route, type(exc).__name__, str(exc)[:160]), case, key='raise_' + key,
+                      detail=log_detail(log, out))
+        return
+    problems = []
+    tokens = out.split('#')
+    if len(tokens) != len(segs):
+        ctx.case(desc, True)
+        ctx.violation('page output not parseable: %r' % out[:80], case, key='parse_' + key,
+                      detail=log_detail(log, out))
+        return
+    for k, tok in zip(segs, tokens):
+        if k in PASSIVE and tok != PASSIVE_OUT[k]:
+            problems.append('segment %s rendered %r' % (k, tok[:40]))
+    if n == 0:
+        ctx.case(desc, False)
+        ctx.count('pages:empty source')
+        if npull:
+            problems.append('%d elements pulled from an empty source' % npull)
+        for k, tok in zip(segs, tokens):
+            if k not in PASSIVE and k not in MODES and tok != 'EMPTY':
+                problems.append('empty source did not render the else body of %s: %r' % (k, tok[:40]))
+        if problems:
+            ctx.violation('; '.join(problems[:3]), case, key='empty_' + key, detail=log_detail(log, out))
+        return
+    # -- the window every walking segment showed / reported
+    bounds = []
+    windows = []
+    wtokens = [tok for k, tok in zip(segs, tokens) if k not in PASSIVE]
+    for k, tok, f in zip(walks, wtokens, effs):
+        try:
+            if k in MODES:
+                fld = tok[2:-1].split('|')
+                s, e = int(fld[0]) + 1, int(fld[1]) + 1
+            else:
+                nums, items = parse_records(tok)
+                s, e = nums[0], nums[-1]
+                if items != nums:
+                    problems.append('segment %s shows elements %r at positions %r' % (k, items[:8], nums[:8]))
+                if k == 'unb' and nums != list(range(1, n + 1)):
+                    problems.append('unbatched segment shows %r, expected every element 1..%d' % (nums[:10], n))
+        except (ValueError, IndexError) as err:
+            ctx.case(desc, True)
+            ctx.violation('output of segment %s not parseable: %s: %r' % (k, err, tok[:60]), case,
+                          key='parse_' + key, detail=log_detail(log, out))
+            return
+        windows.append((s, e))
+        bounds.append(n if k == 'unb' else e + f + orp)
+    # -- order / once / bound
+    if kind in SINGLE_PASS:
+        top = max(bounds)
+        deciding = n is None or n > top
+        if log.pulls != list(range(npull)):
+            problems.append('pull log is not 0,1,2,...: %r' % (log.pulls[:16],))
+        if max(e for _, e in windows) > npull:
+            problems.append('element %d shown but only %d pulled' % (max(e for _, e in windows), npull))
+        if npull > top:
+            problems.insert(0, 'pulled %d elements; the tags %s showed the windows %r, bounds (window end + size + '
+                            'orphan) %r: at most %d' % (npull, '+'.join(walks), windows, bounds, top))
+        if 'unb' in walks and npull != n:
+            problems.append('page with an unbatched walk of %d elements pulled %d' % (n, npull))
+    else:
+        deciding = any(n is None or n > b for b in bounds)
+        runs = []
+        for i in log.pulls:
+            if i == 0 or not runs:
+                runs.append([])
+            runs[-1].append(i)
+        if any(r != list(range(len(r))) for r in runs):
+            problems.append('pull log is not a succession of passes 0,1,2,...: %r' % (log.pulls[:24],))
+        if len(runs) > len(walks) or (log.iters or 0) > len(walks):
+            problems.append('%d passes / %r iter() calls for %d tags' % (len(runs), log.iters, len(walks)))
+        elif len(runs) == len(walks):
+            for k, r, b, w in zip(walks, runs, bounds, windows):
+                if len(r) > b or (k == 'unb' and len(r) != n):
+                    problems.insert(0, 'the pass of tag %s pulled %d elements, window %r, bound %d' % (k, len(r), w, b))
+                if w[1] > len(r):
+                    problems.append('tag %s shows element %d but its pass pulled %d' % (k, w[1], len(r)))
+        elif runs and max(len(r) for r in runs) > max(bounds):
+            problems.insert(0, 'a pass pulled %d elements, bounds %r' % (max(len(r) for r in runs), bounds))
+    ctx.case(desc, deciding)
+    ctx.count('pages:bound evaluations')
+    lookups = len(segs)
+    if deciding:
+        ctx.count('pages:deciding (source longer than the bound)')
+        ctx.table('pages: route (deciding)', route)
+        if len(walks) > 1:
+            ctx.count('pages:deciding with more than one walking tag')
+        if route in ATTRIBUTE_ROUTES and lookups > 1:
+            ctx.count('pages:deciding with the name looked up again as an attribute of the same object')
+        if 'unb' not in walks and kind in SINGLE_PASS and npull == max(bounds):
+            ctx.count('pages:bound reached exactly')
+    if log.lens:
+        ctx.count('monitor:len() calls on the lazy __getitem__ sequence', log.lens)
+    ctx.count('monitor:exhaustion signals', log.stops)
+    if problems:
+        ctx.violation('; '.join(problems[:3]), case, key='page_' + key, detail=log_detail(log, out))
+    if sample:
+        ctx.sample({'template': page_source(case['segs'])[:160] + '...', 'case': case, 'shown_windows': windows,
+                    'bounds': bounds, 'observed': log_detail(log, out)})
+
+
+EXPR_FORMS = ('expr', 'unb_expr', 'xshow')
+
+
+def fit_route(route, names, page=False):
+    """An expression does not call what it names (DTML calls only names looked up by the name form), so a
+    sequence handed out by a method is not combined with the expr forms: plain attribute instead."""
+    if route == 'method' and any(k in EXPR_FORMS for k in names):
+        return 'client'
+    if route in PAGE_ONLY_ROUTES and not page:
+        return 'sub'
+    return route
+
+
+def mkpage(segs, route, kind, n, st, st2, en, sz, orp, ovl, strs=False):
+    route = fit_route(route, segs, page=kind not in ('iter', 'gen'))
+    return {'tmpl': 'page', 'segs': list(segs), 'route': route, 'kind': kind, 'n': n, 'start': st,
+            'start2': st2, 'end': en, 'size': sz, 'orphan': orp, 'overlap': ovl, 'strs': strs}
+
+
 # ---------------------------------------------------------------- one unbatched render
 def unbatched(ctx, env, case, sample=False):
     kind, n = case['kind'], case['n']
@@ -410,7 +673,7 @@ def unbatched(ctx, env, case, sample=False):
         return
     log = PullLog(n, 3 * n + 64)
     out, exc = render(env, case, log)
-    ctx.case((case['tmpl'], kind, n), n > 0)
+    ctx.case((case['tmpl'], kind, n) + ((case['route'],) if case.get('route', 'kw') != 'kw' else ()), n > 0)
     ctx.table('kind/template', '%s/%s' % (kind, case['tmpl']))
     ctx.count('unbatched:evaluations')
     key = case_key(case)
@@ -452,9 +715,13 @@ def unbatched(ctx, env, case, sample=False):
         ctx.sample({'template': SOURCES[case['tmpl']], 'case': case, 'observed': log_detail(log, out)})
 
 
-def mk(tmpl, kind, n, st, en, sz, orp, ovl, strs=False):
-    return {'tmpl': tmpl, 'kind': kind, 'n': n, 'start': st, 'end': en, 'size': sz,
+def mk(tmpl, kind, n, st, en, sz, orp, ovl, strs=False, route='kw'):
+    case = {'tmpl': tmpl, 'kind': kind, 'n': n, 'start': st, 'end': en, 'size': sz,
             'orphan': orp, 'overlap': ovl, 'strs': strs}
+    route = fit_route(route, (tmpl,))
+    if route != 'kw':
+        case['route'] = route
+    return case
 
 
 OTHER_KINDS = ('gen', 'lazy', 'iterable', 'sized')
@@ -465,13 +732,20 @@ def run(ctx, spec):
     from DocumentTemplate import DT_In, DT_InSV, DT_Util
     from vlib.reach import Reach
     reach = Reach()
-    reach.watch('SequenceFromIter.__getitem__', DT_Util.SequenceFromIter.__getitem__)
-    reach.watch('SequenceFromIter.__len__', DT_Util.SequenceFromIter.__len__)
-    reach.watch('sequence_ensure_subscription', DT_Util.sequence_ensure_subscription)
-    reach.watch('DT_InSV.opt', DT_InSV.opt)
-    reach.watch('InClass.renderwb', DT_In.InClass.renderwb)
-    reach.watch('InClass.renderwob', DT_In.InClass.renderwob)
-    reach.watch('sequence_variables.previous_batches', DT_InSV.sequence_variables.previous_batches)
+    # diagnosis only: engine internals that a harmless refactoring may rename
+    for label, owner, attr in (('SequenceFromIter.__getitem__', getattr(DT_Util, 'SequenceFromIter', None), '__getitem__'),
+                               ('SequenceFromIter.__len__', getattr(DT_Util, 'SequenceFromIter', None), '__len__'),
+                               ('sequence_ensure_subscription', DT_Util, 'sequence_ensure_subscription'),
+                               ('DT_InSV.opt', DT_InSV, 'opt'),
+                               ('InClass.renderwb', getattr(DT_In, 'InClass', None), 'renderwb'),
+                               ('InClass.renderwob', getattr(DT_In, 'InClass', None), 'renderwob'),
+                               ('sequence_variables.previous_batches',
+                                getattr(DT_InSV, 'sequence_variables', None), 'previous_batches')):
+        fn = getattr(owner, attr, None)
+        if fn is None:
+            ctx.count('note:anchor not found (renamed?): ' + label)
+        else:
+            reach.watch(label, fn)
     reach.start()
     env = Env(ctx)
     g = GRID[ctx.tier]
@@ -498,6 +772,39 @@ def run(ctx, spec):
                                              sz if sz > 0 else None, orp, ovl)
             ctx.count('literal-attribute renders')
             batched(ctx, env, case)
+    # the same renders with the sequence (and the parameters) reaching the tag by every other route:
+    # every 4th grid point, rotating route x kind x body variant
+    grid_routes = [r for r in ROUTES if r != 'kw' and r not in CREATED and r not in PAGE_ONLY_ROUTES]
+    space = itertools.product(g['length'], g['start'], g['end'], g['size'], g['orphan'], g['overlap'])
+    for i, (n, st, en, sz, orp, ovl) in enumerate(space):
+        if i % ctx.nshards != ctx.shard:
+            continue
+        j = i // ctx.nshards
+        if j % 4 != 2:
+            continue
+        m = j // 4
+        route = grid_routes[m % len(grid_routes)]
+        kind = MORE_KINDS[(m // len(grid_routes)) % len(MORE_KINDS)]
+        if m % 16 == 9 and ovl <= min(eff_size(st, en, sz), 1):
+            nested(ctx, env, mk(('next_nested', 'prev_nested')[(m // 16) % 2], kind, n, st, en, sz, orp, ovl,
+                                route=route))
+            continue
+        variant = (VARIANTS + ('prev', 'next'))[(m // (len(grid_routes) * len(MORE_KINDS))) % (len(VARIANTS) + 2)]
+        if variant == 'pb' and not ovl < eff_size(st, en, sz):
+            variant = 'min'
+        batched(ctx, env, mk(variant, kind, n, st, en, sz, orp, ovl, route=route))
+    # pages, fixed family: the usual page shapes x every route x every kind that more than one tag can walk
+    shapes = (('show', 'next'), ('prev', 'show', 'next'), ('show', 'show'), ('show', 'show2'),
+              ('has', 'show'), ('show', 'alias'), ('var', 'xshow', 'next2'), ('raw', 'full', 'var', 'show2'))
+    fam = itertools.product(shapes, ROUTES, ('lazy', 'lazyeq', 'iterable', 'sized'), (None, 40), (0, 4), (0, 3),
+                            ((0, 0), (1, 1)))
+    for i, (segs, route, kind, n, st, sz, (orp, ovl)) in enumerate(fam):
+        if i % ctx.nshards != ctx.shard:
+            continue
+        if route in CREATED and (i // ctx.nshards) % 4:
+            continue
+        ctx.count('pages:fixed family')
+        page(ctx, env, mkpage(segs, route, kind, n, st, max(st, 1) + eff_size(st, 0, sz) - ovl, 0, sz, orp, ovl))
     # unbatched: every kind, both template forms, every small length
     ulens = [x for x in g['length'] if x is not None]
     for i, (n, kind, tmpl) in enumerate(itertools.product(ulens, KINDS, ('unb', 'unb_expr'))):
@@ -523,13 +830,53 @@ def run(ctx, spec):
             ctx.count('seeded larger unbatched renders')
             unbatched(ctx, env, {'tmpl': rng.choice(['unb', 'unb_expr']), 'kind': rng.choice(KINDS),
                                  'n': rng.randint(0, 300)})
+    # seeded pages and seeded routed renders (after the tuples above so that their stream is unchanged)
+    npages = (4800 if ctx.tier == 'quick' else 96000) // ctx.nshards
+    routes_w = [r for r in ROUTES if r not in CREATED] * 4 + list(CREATED)
+    for _ in range(npages):
+        n = rng.choice([None, rng.randint(0, 30), rng.randint(0, 200)])
+        st = rng.choice([0, -3, rng.randint(1, 12), rng.randint(1, 220)])
+        st2 = rng.choice([0, rng.randint(1, 12), rng.randint(1, 220)])
+        en = rng.choice([0, 0, 0, -1, rng.randint(1, 220)])
+        sz = rng.choice([0, -2, rng.randint(1, 6), rng.randint(1, 40)])
+        orp = rng.randint(0, 12)
+        ovl = rng.randint(0, 1)
+        kind = rng.choice(MORE_KINDS)
+        route = rng.choice(routes_w)
+        walking = [k for k in WALKS if k != 'unb' or (n is not None and rng.random() < 0.3)]
+        if kind in ('iter', 'gen'):
+            # an iterator object is used up by the first tag: one walking tag, the other lookups walk nothing
+            segs = [rng.choice(walking)] + [rng.choice(PASSIVE) for _ in range(rng.randint(1, 2))]
+        else:
+            segs = [rng.choice(walking) for _ in range(rng.randint(2, 4))]
+            segs += [rng.choice(PASSIVE) for _ in range(rng.randint(0, 2))]
+        rng.shuffle(segs)
+        ctx.count('pages:seeded')
+        page(ctx, env, mkpage(segs, route, kind, n, st, st2, en, sz, orp, ovl, strs=rng.random() < 0.1))
+        if rng.random() < 0.5:
+            n = rng.choice([None, rng.randint(0, 200), rng.randint(0, 200)])
+            eff = eff_size(st, en, sz)
+            ovl = rng.choice([rng.randint(0, 8), rng.randint(0, 2 * eff + orp + 4)])
+            tmpl = rng.choice(['full', 'min', 'pb', 'expr', 'rev0', 'prev', 'next'])
+            if tmpl == 'pb' and not ovl < eff:
+                tmpl = 'full'
+            ctx.count('seeded larger tuples, routed')
+            batched(ctx, env, mk(tmpl, rng.choice(MORE_KINDS), n, st, en, sz, orp, ovl, strs=rng.random() < 0.2,
+                                 route=rng.choice(routes_w)))
+        elif rng.random() < 0.2:
+            ctx.count('seeded larger unbatched renders, routed')
+            tmpl = rng.choice(['unb', 'unb_expr'])
+            unbatched(ctx, env, {'tmpl': tmpl, 'kind': rng.choice(MORE_KINDS), 'n': rng.randint(0, 300),
+                                 'route': fit_route(rng.choice(routes_w), (tmpl,))})
     # one written-out sample per shard (the driver keeps one per shard)
     if ctx.shard % 4 == 0:
         batched(ctx, env, mk('min', 'iter', None, 3, 0, 2, 1, 1), sample=True)
     elif ctx.shard % 4 == 1:
         batched(ctx, env, mk('min', 'gen', 9, 0, 4, 0, 0, 0), sample=True)
-    elif ctx.shard % 4 == 2:
+    elif ctx.shard % 8 == 2:
         batched(ctx, env, mk('pb', 'lazy', None, 5, 0, 2, 0, 1), sample=True)
+    elif ctx.shard % 8 == 6:
+        page(ctx, env, mkpage(('prev', 'show', 'next'), 'client', 'lazy', None, 4, 4, 0, 3, 0, 0), sample=True)
     else:
         unbatched(ctx, env, {'tmpl': 'unb', 'kind': 'iterable', 'n': 4}, sample=True)
     ctx.count('monitor:opt calls attributed', env.sites.calls)
@@ -544,15 +891,37 @@ def finish(agg):
     if not c.get('cases:unbounded source'):
         inc.append('no unbounded source was rendered')
     for k in ('bound:evaluations', 'bound:deciding (source longer than the bound)',
-              'bound:reached exactly', 'unbatched:evaluations', 'monitor:opt calls attributed',
+              'bound:reached exactly', 'unbatched:evaluations',
               'monitor:exhaustion signals', 'monitor:iter() calls', 'nested:inner walk rendered',
               'nested:deciding (source longer than the bound)'):
         if not c.get(k):
             inc.append('deciding monitor never evaluated: ' + k)
-    for r in ('reach:SequenceFromIter.__getitem__', 'reach:sequence_ensure_subscription',
-              'reach:DT_InSV.opt', 'reach:InClass.renderwb', 'reach:InClass.renderwob'):
-        if not c.get(r):
-            inc.append('anchor never entered: ' + r)
+    # anchors on engine internals are diagnosis: the verdict rests on the output-level comparisons above
+    unreached = [r for r in ('reach:SequenceFromIter.__getitem__', 'reach:sequence_ensure_subscription',
+                             'reach:DT_InSV.opt', 'reach:InClass.renderwb', 'reach:InClass.renderwob',
+                             'monitor:opt calls attributed') if not c.get(r)]
+    for k in ('routes:batched renders with the sequence delivered other than by keyword',
+              'pages:bound evaluations', 'pages:deciding (source longer than the bound)',
+              'pages:deciding with more than one walking tag',
+              'pages:deciding with the name looked up again as an attribute of the same object',
+              'pages:bound reached exactly'):
+        if not c.get(k):
+            inc.append('deciding monitor never evaluated: ' + k)
+    routed = t.get('route/kind', {})
+    decided = t.get('pages: route (deciding)', {})
+    for route in ROUTES:
+        if not any(k.startswith(route + '/') for k in routed):
+            inc.append('delivery route never rendered: ' + route)
+        if not decided.get(route):
+            inc.append('delivery route without a deciding page: ' + route)
+    for kind in MORE_KINDS:
+        if not routed.get('kw/' + kind) and kind in KINDS:
+            inc.append('container kind never rendered with keyword delivery: ' + kind)
+        if not any(k.endswith('/' + kind) and not k.startswith('kw/') for k in routed):
+            inc.append('container kind never rendered with another delivery: ' + kind)
+    for seg in SEGMENTS:
+        if not t.get('pages: segment', {}).get(seg):
+            inc.append('page segment never rendered: ' + seg)
     seen = t.get('kind/template', {})
     for kind in KINDS:
         if not any(k.startswith(kind + '/') for k in seen):
@@ -566,13 +935,14 @@ def finish(agg):
         size *= len(v)
     return {'inconclusive': inc,
             'coverage': {'exhaustive': True,
+                         'internal_anchors_not_entered (diagnosis only)': unreached,
                          'grid': {k: ([v[0], v[-2], 'unbounded'] if k == 'length' else [v[0], v[-1]])
                                   for k, v in g.items()},
                          'grid_points': size,
                          'explanation': 'every grid point is rendered over a counting iterator with the '
                                         'full body and over one rotating other lazy container/body '
                                         'variant (length None = unbounded source); seeded larger tuples, '
-                                        'modes and literal attributes are extra'}}
+                                        'modes, literal attributes, delivery routes and pages are extra'}}
 
 
 def replay(ctx, rep):
@@ -580,6 +950,8 @@ def replay(ctx, rep):
     case = rep['case']
     if case['tmpl'] in ('unb', 'unb_expr'):
         unbatched(ctx, env, case, sample=True)
+    elif case['tmpl'] == 'page':
+        page(ctx, env, case, sample=True)
     elif case['tmpl'] in ('next_nested', 'prev_nested'):
         nested(ctx, env, case)
     else:
